@@ -310,7 +310,14 @@ class Gadget:
         return out
 
     def arc_kind(self, actor: ast.Call) -> Optional[str]:
-        """'exit' / 'header': from the membership test that guards the assignment block"""
+        """'exit' / 'header': from the table the second-level value is looked up in,
+        else from the membership test that guards the assignment block"""
+        for _s, _v, e in self.stores_for(actor):
+            rl = _rl(e)
+            if rl is not None and rl[0] == self.exit_tbl:
+                return "exit"
+            if rl is not None and rl[0] in self.head_tbls:
+                return "header"
         for t, pol in _guard_conditions(self.fn.node, actor):
             if not pol:
                 continue
@@ -965,3 +972,83 @@ def _under_not_in(fn_node: ast.AST, node: ast.AST, newp: str) -> bool:
             break
         child = anc
     return False
+
+
+
+def _dnf(e: ast.AST, neg: bool = False) -> List[Set[str]]:
+    """disjunctive normal form of a boolean expression: list of sets of literal texts"""
+    if isinstance(e, ast.UnaryOp) and isinstance(e.op, ast.Not):
+        return _dnf(e.operand, not neg)
+    if isinstance(e, ast.BoolOp):
+        is_and = isinstance(e.op, ast.And) != neg
+        parts = [_dnf(v, neg) for v in e.values]
+        if is_and:
+            out: List[Set[str]] = [set()]
+            for p in parts:
+                out = [a | b for a in out for b in p]
+            return out[:64]
+        res: List[Set[str]] = []
+        for p in parts:
+            res += p
+        return res[:64]
+    t = A.unparse(e)
+    return [{("not " + t) if neg else t}]
+
+
+def _full_guard(ctx, fn, node: ast.AST) -> Optional[ast.AST]:
+    """the test of the innermost if/elif arm containing node, with boolean locals
+    replaced by their (single) definition"""
+    child = node
+    for anc in A.ancestors(node):
+        if isinstance(anc, ast.If) and child in anc.body:
+            test = anc.test
+            cfg = ctx.cfg(fn)
+            if isinstance(test, ast.Name):
+                defs = [d for d in cfg.reaching_defs(anc, test.id) if d.stmt is not None]
+                if len(defs) == 1 and _assign_parts(defs[0].stmt) is not None:
+                    return _assign_parts(defs[0].stmt)[1]
+                return None
+            return test
+        if anc is fn.node:
+            break
+        child = anc
+    return None
+
+
+@rule("CTRL-11", 2, "an arc is treated as an exit (header) arc only if its target is an exit block (a header): the guard implies membership in the sequence its control value is looked up in")
+def ctrl11(ctx) -> List[Ob]:
+    out: List[Ob] = []
+    g = Gadget(ctx)
+    fn = g.fn
+    for actor in g.assigns:
+        kind = g.arc_kind(actor)
+        key = f"{kind or '?'}-arc guard"
+        where = ctx.where(fn, actor)
+        if kind is None:
+            out.append(unresolved("CTRL-11", fn.qualname, key, where, "cannot classify the arc"))
+            continue
+        # the value looked up at the second level and the sequence that table enumerates
+        second = None
+        for _s, _v, e in g.stores_for(actor):
+            rl = _rl(e)
+            if rl is not None and (rl[0] == g.exit_tbl or rl[0] in g.head_tbls):
+                second = rl
+        if second is None:
+            out.append(unresolved("CTRL-11", fn.qualname, key, where, "no second-level lookup found"))
+            continue
+        arc = second[1]
+        seqs = g.exit_seq() if kind == "exit" else {"headers"}
+        guard = _full_guard(ctx, fn, actor)
+        if guard is None:
+            out.append(unresolved("CTRL-11", fn.qualname, key, where, "cannot read the guard of the arc"))
+            continue
+        need = {f"{arc} in {q}" for q in seqs}
+        dis = _dnf(guard)
+        lacking = [sorted(d) for d in dis if not (d & need)]
+        if not lacking:
+            out.append(ok("CTRL-11", fn.qualname, key, where, f"every way to satisfy the guard includes {sorted(need)[0]}: the looked-up value is a key of the table"))
+        else:
+            out.append(bad("CTRL-11", fn.qualname, key, where,
+                           f"the guard of the {kind}-arc can hold without {sorted(need)[0]} (when {' and '.join(lacking[0])}): the value looked up for {arc} is not in the table (reverse lookup yields -1) and the arc is rerouted although it is no {kind} arc",
+                           [f"guard: {A.unparse(guard)[:100]}"]))
+    return out
